@@ -28,3 +28,7 @@ Theorem C19_package_vars : G.package_vars = expected_package_vars.
 Proof. exact tie_package_vars. Qed.
 Theorem C19_footprint : forallb allowed_write G.global_writes = true.
 Proof. exact tie_footprint. Qed.
+(* and no package-level slice, map or pointer is handed - directly or through a local alias - to anything that
+   could write its backing store, beyond the reviewed read-only uses *)
+Theorem C19_aliases : G.global_aliases = expected_aliases.
+Proof. exact tie_aliases. Qed.
